@@ -109,6 +109,44 @@ def classify_listing(got, want):
     return "same"
 
 
+def source_tables():
+    """the character tables as written in the source (literal strings/arrays of src/core/parse.rs, src/core/area.rs, src/number/num.rs)"""
+    import re
+    out = {}
+    try:
+        ps = open(os.path.join(C.REPO, "src/core/parse.rs"), encoding="utf-8").read()
+        m = re.search(r"COMMANDS: &\[char\] = &\[(.*?)\];", ps, re.S)
+        out["single"] = [ord(c) for c in re.findall(r"'(.)'", m.group(1))] if m else None
+        m = re.search(r"HEARTS: &\[char\] = &\[(.*?)\];", ps, re.S)
+        out["hearts"] = [ord(c) for c in re.findall(r"'(.)'", m.group(1))] if m else None
+        ns = open(os.path.join(C.REPO, "src/number/num.rs"), encoding="utf-8").read()
+        m = re.search(r's == \*"([^"]+)"', ns)
+        out["nan"] = [ord(c) for c in m.group(1)] if m else None
+    except OSError:
+        pass
+    return out
+
+
+def table_cases(hist):
+    """static tie: the tables of coq/Model/Chars.v against the tables in the source; characters on which they differ are
+    fed to the differential run so that a changed table yields a concrete failing text"""
+    line = C.run_model(["tables"])[0]
+    model = dict((k, [int(x) for x in v.split(".")] if v else []) for k, v in (f.split("=", 1) for f in line.split("|")))
+    src = source_tables()
+    extra = []
+    for k in ("single", "hearts", "nan"):
+        if src.get(k) is None:
+            continue
+        hist["table:" + k] += 1
+        if src[k] != model.get(k):
+            diff = set(src[k]) ^ set(model.get(k, []))
+            hist["table-differs:" + k] += 1
+            for cp in sorted(diff):
+                ch = chr(cp)
+                extra += ["형." + ch, "형.!" + ch + "?" + ch, "혀" + ch + "엉..", ch + "형", "하" + ch + "앙" + ch]
+    return extra
+
+
 def run(prop, tier, seed):
     V = C.Verdict(prop, tier, seed)
     rng = random.Random(seed)
@@ -119,7 +157,7 @@ def run(prop, tier, seed):
     n_render, n_unst, n_mal, n_big = (2500, 1200, 800, 6) if quick else (60000, 30000, 20000, 60)
     hist = Counter()
     cases = []   # (tag, text, expected_line or None)
-    for t in CORPUS:
+    for t in CORPUS + table_cases(hist):
         cases.append(("corpus", t, None))
     for _ in range(n_render):
         cmds = [P.gen_cmd(rng) for _ in range(rng.choice([0, 1, 2, 3, 4, 6]))]
@@ -202,7 +240,7 @@ def run(prop, tier, seed):
         V.violation("correspondence:" + prop, "parser model/implementation correspondence no longer checks on %r: impl=%s model=%s" % (text, a, b),
                     dict(correspondence="L0 parse::parse vs L1 coq/Model/Parse.v vs L2 coq/Spec/Grammar.v", text=text, impl=a, model=b,
                          disagreements=len(corr)), found_input=False)
-    samples = [dict(text=cases[i][1][:120], tag=cases[i][0], result=l0[i][:200]) for i in range(len(CORPUS), len(cases), max(1, len(cases) // 6))][:8]
+    samples = [dict(text=cases[i][1][:120], tag=cases[i][0], result=l0[i][:200]) for i in range(min(len(CORPUS), len(cases) - 1), len(cases), max(1, len(cases) // 6))][:8]
     if prop == "C08":
         samples += check_listing(rng, V, 40 if quick else 600, hist)
     if not pc["ok"]:
